@@ -39,6 +39,7 @@ type GenOpts struct {
 	MatchPool     []string // C14: names that match the configured regexp (nil = feature off)
 	NamePatterns  bool     // C14: a free choice of which generated names are taken from MatchPool
 	Spellings     bool     // every case is also fed in 4 other JSON spellings of the same line; the outputs must be identical
+	RootStage     string   // the first stage generated is this production, at no cost: the deviation budget is spent BELOW it ("$search", "$searchMeta", "$vectorSearch", "$lookup-pipeline", ...)
 	Scale         bool     // the layer is a scale layer (zz_verif_scale.go): kind x size x leaf variant instead of slot x productions
 	ScaleThorough bool     // scale layer: the larger size ranges
 }
@@ -76,6 +77,7 @@ type Gen struct {
 	focus   []*LNode // the SECRET nodes produced by leaf() (the focused literals of the derivation)
 	pattern int      // C14: which names match (see namePatterns)
 	fnl     bool     // user field names generated now are in a position C15 lists (query / update / insert / sort / $match)
+	rooted  bool     // the RootStage production has been placed
 }
 
 var defaultFieldNames = []string{"fld", "status", "createdAt", "owner", "tags", "qty", "score2", "addr"}
@@ -444,7 +446,19 @@ func (g *Gen) ST(top bool) *LNode {
 	g.top = top
 	savef := g.fnl
 	g.fnl = false
-	n := g.pick("ST", stProds)
+	var n *LNode
+	if g.o.RootStage != "" && !g.rooted {
+		g.rooted = true
+		for _, p := range stProds {
+			if p.name == g.o.RootStage {
+				g.note("ST:" + p.name + "(root)")
+				n = p.f(g)
+			}
+		}
+	}
+	if n == nil {
+		n = g.pick("ST", stProds)
+	}
 	g.top, g.fnl = save, savef
 	return n
 }
@@ -980,15 +994,15 @@ func init() {
 		}},
 		{"equals", false, func(g *Gen) *LNode {
 			if g.x.Free(2, "path/value order") == 0 {
-				return LO("equals", LO("path", LS(g.uname()).DC(), "value", g.leaf(MStr|MBool|MNum|MDate|MOid|MNull)))
+				return LO("equals", LO("path", LS(g.uname()).DC(), "value", g.leaf(MStr|MBool|MNum|MDate|MOid|MNull|MBin)))
 			}
-			return LO("equals", LO("value", g.leaf(MStr|MBool|MNum|MDate|MOid), "path", LS(g.uname()).DC(), "score", LO("boost", LO("value", LN("2"))).DC()))
+			return LO("equals", LO("value", g.leaf(MStr|MBool|MNum|MDate|MOid|MBin), "path", LS(g.uname()).DC(), "score", LO("boost", LO("value", LN("2"))).DC()))
 		}},
 		{"in", false, func(g *Gen) *LNode {
 			if g.x.Free(2, "in value form") == 0 {
-				return LO("in", LO("path", LS(g.uname()).DC(), "value", LA(g.leaf(MStr|MNum|MDate|MOid|MBool), g.sec())))
+				return LO("in", LO("path", LS(g.uname()).DC(), "value", LA(g.leaf(MStr|MNum|MDate|MOid|MBool|MBin), g.sec())))
 			}
-			return LO("in", LO("path", LS(g.uname()).DC(), "value", g.leaf(MStr|MNum|MDate|MOid|MBool)))
+			return LO("in", LO("path", LS(g.uname()).DC(), "value", g.leaf(MStr|MNum|MDate|MOid|MBool|MBin)))
 		}},
 		{"range", false, func(g *Gen) *LNode {
 			ops := []string{"gt", "gte", "lt", "lte"}
